@@ -252,6 +252,10 @@ def document(input_file: str, settings: Settings):
                     if filename.endswith(".cmake"):
                         break
                 else:
+                    # Without -r the walk never goes below the input directory,
+                    # also when the input directory itself is skipped
+                    if not recursive:
+                        break
                     continue
 
             # Sort filenames and subdirs in alphabetical order
